@@ -51,7 +51,7 @@ def gen_cases(ctx, deep=False):
     cases = []
     two = list(interleavings([3, 3]))
     for warm in (None, 0, 1):
-        for xs in ([1, 2], [2, 1], [1, 1], [2, 2]):
+        for xs in ([1, 2], [2, 1], [1, 1], [2, 2]) if big or deep else ([1, 2], [1, 1]):
             for sched in two:
                 cases.append({'kind': 'translator', 'warm': warm, 'xs': xs, 'sched': sched})
     for warm, xs in ((1000, [1000, 1000]), (1000, [1000, 2]), (None, [1000, 1000])):      # equal values that are distinct int objects
@@ -59,15 +59,16 @@ def gen_cases(ctx, deep=False):
             cases.append({'kind': 'translator', 'warm': warm, 'xs': xs, 'sched': sched})
     three = list(interleavings([3, 3, 3]))
     for warm, xs in ((0, [1, 2, 3]), (None, [1, 2, 1]), (0, [1, 1, 2]), (1, [1, 2, 2])):
-        scheds = three if big else rng.sample(three, 120 if deep else 40)
+        scheds = three if big else rng.sample(three, 120 if deep else 25)
         for sched in scheds:
             cases.append({'kind': 'translator', 'warm': warm, 'xs': xs, 'sched': sched})
     for cache in ('string2ast', 'adapt_sql', 'decompile', 'extractors', 'lambda_args', 'constructed_sql'):
         for inputs in ([0, 2], [0, 1], [0, 0], [1, 3]):
             for sched in interleavings([2, 2]):
                 cases.append({'kind': 'setonly', 'cache': cache, 'inputs': inputs, 'sched': sched})
+        three2 = list(interleavings([2, 2, 2]))
         for inputs in ([0, 2, 1], [0, 2, 0], [0, 1, 3]):
-            for sched in interleavings([2, 2, 2]):
+            for sched in (three2 if big else rng.sample(three2, 40 if deep else 15)):
                 cases.append({'kind': 'setonly', 'cache': cache, 'inputs': inputs, 'sched': sched})
     cases.append({'kind': 'cross'})
     return cases
